@@ -157,7 +157,7 @@ namespace vw
             return adj;
         }
 
-        // every base level unmasked, at least one; with a resolver every unmasked component holds one
+        // at least one unmasked base level; with a resolver every unmasked component holds an unmasked one
         static bool domain_ok(const std::vector<std::vector<std::size_t>>& adj, const std::vector<uint8_t>& mask,
                               const std::vector<std::size_t>& base, bool need_components)
         {
@@ -165,12 +165,21 @@ namespace vw
             if (base.empty())
                 return false;
             std::vector<uint8_t> isb(n, 0);
+            bool any_unmasked = false;
             for (auto b : base)
             {
-                if (b >= n || (b < mask.size() && mask[b]))
+                if (b >= n)
                     return false;
-                isb[b] = 1;
+                // a base level may be masked (e.g. a masked stretch of a fixed-value border); it then
+                // does not count as the outlet of any unmasked component
+                if (!(b < mask.size() && mask[b]))
+                {
+                    isb[b] = 1;
+                    any_unmasked = true;
+                }
             }
+            if (!any_unmasked)
+                return false;
             if (!need_components)
                 return true;
             std::vector<int> comp(n, -1);
@@ -207,11 +216,14 @@ namespace vw
             const std::size_t n = adj.size();
             std::vector<std::size_t> nb;
             std::vector<uint8_t> isb(n, 0);
+            std::vector<uint8_t> kept(n, 0);
             for (auto b : base)
-                if (b < n && !(b < mask.size() && mask[b]) && !isb[b])
+                if (b < n && !kept[b])
                 {
-                    isb[b] = 1;
-                    nb.push_back(b);
+                    kept[b] = 1;
+                    nb.push_back(b);  // masked base levels are kept in the set
+                    if (!(b < mask.size() && mask[b]))
+                        isb[b] = 1;
                 }
             std::vector<int> seen(n, 0);
             for (std::size_t s = 0; s < n; ++s)
@@ -451,6 +463,23 @@ namespace vw
             s.name = "s" + std::to_string(snap_id++);
             s.save_graph = can_graph && r.chance(0.8) ? 1 : 0;
             s.save_elev = (!s.save_graph || r.chance(0.4)) ? 1 : 0;
+            // graph and elevation snapshots live in separate key spaces: a graph-only snapshot may share
+            // its name with an elevation-only snapshot elsewhere in the sequence
+            if (s.save_graph != s.save_elev && r.chance(0.3))
+                for (const OperatorSpec& o : w.ops)
+                {
+                    if (o.kind != O_SNAPSHOT)
+                        continue;
+                    bool clash = false;  // the name must be free in the key space(s) this snapshot uses
+                    for (const OperatorSpec& q : w.ops)
+                        if (q.kind == O_SNAPSHOT && q.name == o.name && ((q.save_graph && s.save_graph) || (q.save_elev && s.save_elev)))
+                            clash = true;
+                    if (!clash)
+                    {
+                        s.name = o.name;
+                        break;
+                    }
+                }
             w.ops.push_back(s);
         };
         const double psnap = mode == MODE_C16 ? 0.7 : (mode == MODE_C08 ? 0.3 : 0.1);
@@ -1283,7 +1312,7 @@ namespace vw
                         ref = twin->graph.get();
                     if (on_snap)
                         for (auto& p : prefixes)
-                            if (p.name == h.name && p.world && p.world->has_result)
+                            if (p.name == h.name && p.graph && p.world && p.world->has_result)
                                 ref = p.world->graph.get();
                     if (ref)
                     {
